@@ -733,5 +733,6 @@ impl Program {
         probe.data_cursor = self.data_iterator.as_ref().map(|d| d.verif_position());
         probe.token_reads = self.verif_token_reads.get();
         probe.line_count = self.numbered_lines.list_tokens().len();
+        probe.nesting_depth = self.nesting_depth;
     }
 }
